@@ -133,12 +133,20 @@ class TestDataGenerator():
         dt_local = dt.astimezone(tz)
 
         # Check every 'sampling_interval' hours for a transition
+        # The last instant of the range. The final sampling interval is
+        # shortened to end here, so that a transition between the last sample
+        # and the end of the range is not missed.
+        last_dt = datetime(self.until_year, 1, 1, 0, 0, 0, tzinfo=UTC) \
+            - timedelta(minutes=1)
+
         transitions: List[TransitionTimes] = []
         while True:
-            next_dt = dt + self.sampling_interval
-            next_dt_local = next_dt.astimezone(tz)
-            if next_dt.year >= self.until_year:
+            if dt >= last_dt:
                 break
+            next_dt = dt + self.sampling_interval
+            if next_dt > last_dt:
+                next_dt = last_dt
+            next_dt_local = next_dt.astimezone(tz)
 
             # Look for a UTC or DST transition.
             if self.is_transition(dt_local, next_dt_local):
